@@ -737,9 +737,30 @@ def wrap_form(rng, names):
     return [rng.choice(["list", "list", "tuple", "set", "gen"]), names]
 
 
+def bulk_keyword_file(v, layout):
+    """A keyword file larger than any buffer a reader is likely to use (4 KiB .. 128 KiB), made of fixed-width
+    8-byte records so that every power-of-two offset falls immediately after a line terminator (or, for the
+    shifted CRLF form, between CR and LF): a chunked reader that loses or merges a line at a chunk boundary
+    (seeded change c18t) shows up as a wrong keyword set. Derived from the scenario seed without PRNG draws."""
+    form = v % 4
+    n = 17000 if form == 3 else 9000
+    if form in (0, 3):
+        content = b"".join(b"kw%05d\n" % i for i in range(n))
+    else:
+        content = b"".join(b"k%05d\r\n" % i for i in range(n))
+        if form == 2:
+            content = b"Z" + content
+    if (v // 4) % 2:
+        content = content[:-1] if form in (0, 3) else content[:-2]  # no terminator after the last line
+    d = layout["dirs"][0] + "/" if layout["dirs"] and (v // 8) % 2 else ""
+    return {"path": d + "bulk.words", "content": content.hex()}
+
+
 def gen_c18(seed, shipped, tier="quick"):
     rng = random.Random(seed)
     layout = gen_layout(rng, collisions=True)
+    if seed % 16 == 5:
+        layout["files"].append(bulk_keyword_file(seed // 16, layout))
     ops = []
     if rng.random() < 0.2:
         # the first thing the process does: several threads build their registries at once
